@@ -181,8 +181,11 @@ func runC09(c *Ctx) {
 	// path: the cached path is served only while its first element is the tree's root.
 	{
 		sub := NewCtx(c.P, "C01", c.Tier)
-		runC01(sub)
+		shared := runShared(c, "C01", func() { runC01(sub) })
 		n := 0
+		if !shared {
+			sub.Obls = nil
+		}
 		for _, o := range sub.Obls {
 			if o.Rule != "C01.4-snapshot-path-cache" {
 				continue
@@ -190,7 +193,9 @@ func runC09(c *Ctx) {
 			n++
 			c.Check(o.Held, "C09.5-snapshot-path-cache", strings.TrimPrefix(o.Key, o.Rule+"|"), o.Pos, o.Detail)
 		}
-		c.Min("C09.5-snapshot-path-cache", 3)
+		if shared {
+			c.Min("C09.5-snapshot-path-cache", 3)
+		}
 	}
 
 	// ---- C09.2 storage order
@@ -376,7 +381,7 @@ func runC09(c *Ctx) {
 			}
 			return true, a.Op == token.NEQ // pass edge = path NOT empty
 		})
-		c.RequireGate("C09.4-empty-request", fn, emptyPath, CallSinks(fn, CalleeFn(cs2), false), "commonSnapshotForTwoPaths")
+		c.RequireGate("C09.4-empty-request", fn, emptyPath, CallSinksX(fn, CalleeFn(cs2), false), "commonSnapshotForTwoPaths")
 		// the default common snapshot is ourPath[len-1]
 		ldr := p.Func(otPkg + ":(*loadIterator).load")
 		okRoot := false
